@@ -153,7 +153,7 @@ where
                 // Same application of constraining domain is done for the other two variables.
                 //
                 // The constraint is not dropped until all variables converge into numbers.
-                Ok(state
+                let state = state
                     .process_domain(
                         &wwalk,
                         Rc::new(FiniteDomain::from(
@@ -171,8 +171,15 @@ where
                         Rc::new(FiniteDomain::from(
                             wmin.saturating_sub(umax)..=wmax.saturating_sub(umin),
                         )),
-                    )?
-                    .with_constraint(self))
+                    )?;
+                if state.smap_ref().len() != smap.len() {
+                    // An operand was bound while the domains were narrowed: the walked
+                    // operands and their domains used above are stale, so the constraint
+                    // is run again instead of being stored unchecked.
+                    self.run(state)
+                } else {
+                    Ok(state.with_constraint(self))
+                }
             }
             // If all operators do not yet have domains, then keep the constraint until it can
             // be used to constrain some domains.
